@@ -161,7 +161,7 @@ func (s *SourceSplitter) Close() error {
 
 // Checkpoint returns a snapshot of the splitter's state for checkpointing.
 func (s *SourceSplitter) Checkpoint() []byte {
-	splits := s.splitTracker.AssignedSplits()
+	splits, lastAssignedSplitID := s.splitTracker.AssignedSplitsWithLastID()
 	pbShards := make([]*kinesispb.SourceSplitterShard, len(splits))
 	for i, shard := range splits {
 		pbShards[i] = shard.toProto()
@@ -169,7 +169,7 @@ func (s *SourceSplitter) Checkpoint() []byte {
 
 	bs, err := proto.Marshal(&kinesispb.SplitterState{
 		AssignedShards:      pbShards,
-		LastAssignedShardId: s.splitTracker.LastAssignedSplitID,
+		LastAssignedShardId: lastAssignedSplitID,
 	})
 	if err != nil {
 		panic(err)
